@@ -1,4 +1,5 @@
 #![allow(dead_code)]
+mod api;
 mod extract;
 mod gen;
 mod hist;
@@ -80,6 +81,7 @@ fn replay_case(property: &str, case: &Value, rep: &mut Report) -> Result<(), Str
                 Err(format!("property {} has no history monitor", property))
             }
         }
+        "merge" | "ops" => api::replay(property, case, rep),
         other => Err(format!("unknown case kind {:?}", other)),
     }
 }
@@ -244,6 +246,29 @@ fn main() {
                     "the document AST is ground truth; the serializer in gen.rs writes well-formed XML for it".into(),
                     "quick-xml 0.37.5 default reader configuration".into(),
                     "rendered text is read back with the quick-xml preset (@, $text), whose bindings identify attributes, text and children unambiguously".into(),
+                ],
+                1000,
+                json!({}),
+            )
+        } else if property == "C15" {
+            let (r, rule) = api::run_c15(args.tier == "thorough", args.seed, SHARDS);
+            (
+                r,
+                rule,
+                true,
+                vec!["the 15-line reference merge in api.rs is the reading of the statement".into()],
+                1000,
+                json!({}),
+            )
+        } else if property == "C16" {
+            let (r, rule) = api::run_c16(args.tier == "thorough", args.seed, SHARDS);
+            (
+                r,
+                rule,
+                true,
+                vec![
+                    "attributes of a hand-built tree are only observable through rendering; fields are compared as sets (order is not claimed for hand-built trees)".into(),
+                    "merge_attr lists are duplicate-free, as C15 requires".into(),
                 ],
                 1000,
                 json!({}),
